@@ -47,6 +47,7 @@ package inprocgrpc
 // svc_part / mtd_part: the two components of "/service/method" after the
 // leading slash has been ensured.
 //@ define slashed(m) = ite(len(m) > 0 && byteat(m, 0) == '/', m, "/" + m)
+//@ define mrest(m) = substr(slashed(m), 1, len(slashed(m)))
 //@ func (*Channel).Invoke
 //@   ensures[C02,C01] a_response_that_cannot_be_copied_is_an_error: called("inprocgrpc.Cloner.Copy") && lastresult("inprocgrpc.Cloner.Copy") != nil ==> result == lastresult("inprocgrpc.Cloner.Copy")
 //@   assert_call[C13] (*internal.CallOptions).SetPeer : in_process_peer: arg0 == lastresult("internal.GetCallOptions") && arg1 == &inprocessPeer
@@ -54,11 +55,10 @@ package inprocgrpc
 //@   ensures[C06,C08] nil_request_is_rejected_before_anything_runs: called(isNil) && lastresult(isNil) ==> is_status_err(result) && err_status_code(result) == 13 && !called("go") && !called("internal.ApplyPerRPCCreds")
 //@   assert_call[C13] internal.ApplyPerRPCCreds : always_secure_with_inproc_uri: arg0 == ctx$entry && arg1 == lastresult("internal.GetCallOptions") && arg3 && arg2 == fmt_inproc(slashed(method$entry))
 //@   ensures[C13] credential_failure_runs_nothing: called("internal.ApplyPerRPCCreds") && lastresult("internal.ApplyPerRPCCreds", 1) != nil ==> result == lastresult("internal.ApplyPerRPCCreds", 1) && !called("go")
-//@   assert_call[C12] strings.SplitN : service_and_method_after_the_leading_slash: arg0 == substr(slashed(method$entry), 1, len(slashed(method$entry))) && arg1 == "/" && arg2 == 2
-//@   ensures[C12] malformed_name_is_a_status_error: called("strings.SplitN") && len(lastresult("strings.SplitN")) < 2 ==> is_status_err(result) && !called("go")
-//@   assert_call[C12] (grpchan.HandlerMap).QueryService : by_service_name: arg0 == c.handlers && arg1 == lastresult("strings.SplitN")[0]
+//@   ensures[C12] malformed_name_is_a_status_error: !str_contains(mrest(method$entry), "/") ==> !called("go") && !called("(grpchan.HandlerMap).QueryService") && (called("internal.ApplyPerRPCCreds") && lastresult("internal.ApplyPerRPCCreds", 1) == nil ==> is_status_err(result))
+//@   assert_call[C12] (grpchan.HandlerMap).QueryService : by_service_name: arg0 == c.handlers && str_contains(mrest(method$entry), "/") && arg1 == split_head(mrest(method$entry), "/")
 //@   ensures[C12] unknown_service_is_unimplemented: called("(grpchan.HandlerMap).QueryService") && lastresult("(grpchan.HandlerMap).QueryService", 0) == nil ==> is_status_err(result) && err_status_code(result) == 12 && !called("go")
-//@   assert_call[C12] internal.FindUnaryMethod : by_method_name_among_the_services_methods: arg0 == lastresult("strings.SplitN")[1] && arg1 == lastresult("(grpchan.HandlerMap).QueryService", 0).Methods
+//@   assert_call[C12] internal.FindUnaryMethod : by_method_name_among_the_services_methods: arg0 == split_tail(mrest(method$entry), "/") && arg1 == lastresult("(grpchan.HandlerMap).QueryService", 0).Methods
 //@   ensures[C12] unknown_method_is_unimplemented: called("internal.FindUnaryMethod") && lastresult("internal.FindUnaryMethod") == nil ==> is_status_err(result) && err_status_code(result) == 12 && !called("go")
 //@   ensures[C05,C04] derived_context_is_always_cancelled: called("context.WithCancel") ==> calls("context.CancelFunc") == 1
 //@   ensures[C05] at_most_one_server_goroutine: calls("go") <= 1
@@ -80,11 +80,10 @@ package inprocgrpc
 //@   assert_call[C13] (*internal.CallOptions).SetPeer : in_process_peer: arg0 == lastresult("internal.GetCallOptions") && arg1 == &inprocessPeer
 //@   assert_call[C13] internal.ApplyPerRPCCreds : always_secure_with_inproc_uri: arg0 == ctx$entry && arg1 == lastresult("internal.GetCallOptions") && arg3 && arg2 == fmt_inproc(slashed(method$entry))
 //@   ensures[C13] credential_failure_runs_nothing: called("internal.ApplyPerRPCCreds") && lastresult("internal.ApplyPerRPCCreds", 1) != nil ==> result1 == lastresult("internal.ApplyPerRPCCreds", 1) && result0 == nil && !called("go")
-//@   assert_call[C12] strings.SplitN : service_and_method_after_the_leading_slash: arg0 == substr(slashed(method$entry), 1, len(slashed(method$entry))) && arg1 == "/" && arg2 == 2
-//@   ensures[C12] malformed_name_is_a_status_error: called("strings.SplitN") && len(lastresult("strings.SplitN")) < 2 ==> is_status_err(result1) && result0 == nil && !called("go")
-//@   assert_call[C12] (grpchan.HandlerMap).QueryService : by_service_name: arg0 == c.handlers && arg1 == lastresult("strings.SplitN")[0]
+//@   ensures[C12] malformed_name_is_a_status_error: !str_contains(mrest(method$entry), "/") ==> !called("go") && !called("(grpchan.HandlerMap).QueryService") && result0 == nil && (called("internal.ApplyPerRPCCreds") && lastresult("internal.ApplyPerRPCCreds", 1) == nil ==> is_status_err(result1))
+//@   assert_call[C12] (grpchan.HandlerMap).QueryService : by_service_name: arg0 == c.handlers && str_contains(mrest(method$entry), "/") && arg1 == split_head(mrest(method$entry), "/")
 //@   ensures[C12] unknown_service_is_unimplemented: called("(grpchan.HandlerMap).QueryService") && lastresult("(grpchan.HandlerMap).QueryService", 0) == nil ==> is_status_err(result1) && err_status_code(result1) == 12 && result0 == nil && !called("go")
-//@   assert_call[C12] internal.FindStreamingMethod : by_method_name_among_the_services_streams: arg0 == lastresult("strings.SplitN")[1] && arg1 == lastresult("(grpchan.HandlerMap).QueryService", 0).Streams
+//@   assert_call[C12] internal.FindStreamingMethod : by_method_name_among_the_services_streams: arg0 == split_tail(mrest(method$entry), "/") && arg1 == lastresult("(grpchan.HandlerMap).QueryService", 0).Streams
 //@   ensures[C12] unknown_method_is_unimplemented: called("internal.FindStreamingMethod") && lastresult("internal.FindStreamingMethod") == nil ==> is_status_err(result1) && err_status_code(result1) == 12 && result0 == nil && !called("go")
 //@   chan_cap_bound[C20] 1
 //@   ensures[C05,C01,C20] one_server_goroutine_per_stream: result1 == nil ==> calls("go") == 1 && result0 != nil
